@@ -546,6 +546,66 @@ func c14ParamOf(v ssa.Value, fn *ssa.Function) *ssa.Parameter {
 	return nil
 }
 
+// c14ConstTable: m is a load of a package-level map that is written only by the
+// package initialiser, with constant integer values all different from `not`.
+func c14ConstTable(c *Ctx, m ssa.Value, not int64) bool {
+	rs := Roots(m)
+	if len(rs) != 1 {
+		return false
+	}
+	ld, ok := rs[0].(*ssa.UnOp)
+	if !ok || ld.Op != token.MUL {
+		return false
+	}
+	g, ok := ld.X.(*ssa.Global)
+	if !ok {
+		return false
+	}
+	n := 0
+	for f := range c.P.All {
+		if f.Pkg != g.Pkg || len(f.Blocks) == 0 {
+			continue
+		}
+		isInit := f.Name() == "init" || strings.HasPrefix(f.Name(), "init#")
+		bad := false
+		AllInstrs(f, func(in ssa.Instruction) {
+			switch x := in.(type) {
+			case *ssa.Store:
+				if x.Addr == ssa.Value(g) && !isInit {
+					bad = true
+				}
+			case *ssa.MapUpdate:
+				fromG := false
+				for _, r := range Roots(x.Map) {
+					if u, isU := r.(*ssa.UnOp); isU && u.X == ssa.Value(g) {
+						fromG = true
+					}
+					if mk, isMk := r.(*ssa.MakeMap); isMk && isInit {
+						// the literal being built for g: its value is stored into g in init
+						for _, ref := range *mk.Referrers() {
+							if st, isSt := ref.(*ssa.Store); isSt && st.Addr == ssa.Value(g) {
+								fromG = true
+							}
+						}
+					}
+				}
+				if !fromG {
+					return
+				}
+				k, isK := constInt(x.Value)
+				if !isInit || !isK || k == not {
+					bad = true
+				}
+				n++
+			}
+		})
+		if bad {
+			return false
+		}
+	}
+	return n > 0
+}
+
 // c14IsStateField: fa addresses an int32 / atomic.Int32 field.
 func c14IsStateField(fa *ssa.FieldAddr) bool {
 	pt, ok := fa.Type().Underlying().(*types.Pointer)
@@ -632,9 +692,13 @@ func c14R4(c *Ctx) {
 					}
 					okNew := len(vw.Leaves(call.Call.Args[2])) > 0
 					for _, nv := range vw.Leaves(call.Call.Args[2]) {
-						if n, isK := constInt(nv); !isK || n == unknown {
-							okNew = false
+						if n, isK := constInt(nv); isK && n != unknown {
+							continue
 						}
+						if lk, isLk := nv.(*ssa.Lookup); isLk && c14ConstTable(c, lk.X, unknown) {
+							continue // a package-level conversion table filled with known states only
+						}
+						okNew = false
 					}
 					okCAS := okOld && okNew
 					c.Check(R, fmt.Sprintf("%s|cas-from-unknown#%d", FnName(f), idx["cas"]), in.Pos(), okCAS,
